@@ -45,7 +45,9 @@ def extra(report, env):
                   'dateutil.parser.parse fills missing date fields from today: DAY("March 2021") = %r depends on the current date' % (r['result'],))
     # --- histories: outcome after any history = outcome on a fresh parser
     formulas = ['1+2*3', 'SUM(A1:B2)', 'x&"a"', 'IF(x>1,"y","n")', '1/0', 'nosuch', 'NOSUCH(1)', '((', 'SUM(1/0)', '"abc', 'MYF(1)', 'BOOM()', '{1,2;3,4}',
-                'INDEX({1,2,3},2)', 'A1+$B$2', 'TRIM("  a  b ")', '-x', '#N/A', 'DATE(2020,1,31)+1', 'LARGE(lst,2)', 'MEDIAN(lst)', 'SUM(lst,lst)']
+                'INDEX({1,2,3},2)', 'A1+$B$2', 'TRIM("  a  b ")', '-x', '#N/A', 'DATE(2020,1,31)+1', 'LARGE(lst,2)', 'MEDIAN(lst)', 'SUM(lst,lst)',
+                'RAISE("#N/A")', 'IFNA(RAISE("#N/A"),1)', 'RAISE("#GETTING_DATA",1)', 'ISNA(RAISE("#N/A",3))', 'RAISE("#DIV/0!",2)', 'RAISE()+1',
+                'IFERROR(RAISE("#NUM!",1),RAISE("#REF!"))', 'ERROR.TYPE(RAISE("#VALUE!"))', 'SUM(1,RAISE("#NULL!",3))', 'SQRT(0-1)', 'RAISE(,9)']
 
     def mk():
         q = e2e.new_parser()
@@ -56,6 +58,11 @@ def extra(report, env):
         def boom():
             raise RuntimeError('boom')
         q.set_function('BOOM', boom)
+
+        def raiser(text=None, kind=0):
+            # an ordinary exception (or an error value) whose text may spell an error code
+            raise [ValueError, RuntimeError, KeyError, error.XLError][int(kind)](*([] if text is None else [text]))
+        q.set_function('RAISE', raiser)
         q.on('callCellValue', lambda cell, setter: setter(cell.row.index + cell.col.index))
         q.on('callRangeValue', lambda a, b, setter: setter([[1, 2], [3, 4]]))
         return q
